@@ -346,11 +346,13 @@ def tie(ctx):
         n = truncation_sweep(t, rng.getrandbits(32), fails)
         dist['truncation_files'] += 1
         dist['truncation_fetches'] += n
+    dist['json_extra_data_fetches'] = json_extra_sweep(rng, fails, ctx.scale(6, 40))
     for f in fails[:3]:
         dis.append({'what': 'JSON hypothesis / round trip does not hold on the real code: ' + f['class'], 'case': f['case'],
                     'observed': f.get('observed')})
+    n_conc = tie_concurrent(ctx, dist, dis)
     return {
-        'evaluations': len(terms) + dist['truncation_fetches'],
+        'evaluations': len(terms) + dist['truncation_fetches'] + n_conc + dist['json_extra_data_fetches'],
         'distinct_nontrivial': nontriv + dist['truncation_fetches'] - dist['truncation_files'],
         'rule': 'histories: distinct op sequences containing an insert, a fetch and a crash or a pre-populated read-only '
                 'file; truncations: every proper prefix of every generated cache file (each is a distinct crash point)',
@@ -359,6 +361,265 @@ def tie(ctx):
         'exhaustive': False,
         'disagreements': dis,
     }
+
+
+# ------------------------------------------------------------------ concurrent writers (swarm)
+
+import threading
+
+_tl = threading.local()
+
+
+class _Gate:
+    """Deterministic gate: writer threads stop before every file-system call of TocCache.insert (open for
+    writing, write, close, os.replace/rename); the driver lets exactly one of them perform exactly one call."""
+
+    def __init__(self):
+        self.cv = threading.Condition()
+        self.turn = None
+        self.waiting = set()
+        self.finished = set()
+
+    def point(self, wid):
+        with self.cv:
+            self.waiting.add(wid)
+            self.cv.notify_all()
+            while self.turn != wid:
+                if not self.cv.wait(20):
+                    raise RuntimeError('gate timeout')
+            self.turn = None
+            self.waiting.discard(wid)
+            self.cv.notify_all()
+
+    def done(self, wid):
+        with self.cv:
+            self.finished.add(wid)
+            self.cv.notify_all()
+
+    def step(self, wid):
+        """let writer wid perform its next call; False if it has already finished"""
+        with self.cv:
+            while wid not in self.waiting and wid not in self.finished:
+                if not self.cv.wait(20):
+                    raise RuntimeError('driver timeout (arrival)')
+            if wid in self.finished:
+                return False
+            self.turn = wid
+            self.cv.notify_all()
+            while not (self.turn is None and (wid in self.waiting or wid in self.finished)):
+                if not self.cv.wait(20):
+                    raise RuntimeError('driver timeout (completion)')
+            return True
+
+
+class _GFile:
+    def __init__(self, f, wid, gate):
+        self._f, self._wid, self._gate = f, wid, gate
+
+    def write(self, data):
+        self._gate.point(self._wid)
+        r = self._f.write(data)
+        self._f.flush()                  # the write reaches the file at this step (granularity of the model)
+        return r
+
+    def close(self):
+        self._gate.point(self._wid)
+        self._f.close()
+
+    def __enter__(self):
+        return self
+
+    def __exit__(self, *a):
+        self.close()
+
+    def __getattr__(self, n):
+        return getattr(self._f, n)
+
+
+class _OsProxy:
+    def __init__(self, gate):
+        self._gate = gate
+
+    def __getattr__(self, n):
+        return getattr(os, n)
+
+    def _gated(self, fn, *a, **k):
+        wid = getattr(_tl, 'wid', None)
+        if wid is not None:
+            self._gate.point(wid)
+        return fn(*a, **k)
+
+    def replace(self, *a, **k):
+        return self._gated(os.replace, *a, **k)
+
+    def rename(self, *a, **k):
+        return self._gated(os.rename, *a, **k)
+
+
+def run_concurrent(jobs, sched, check_each_step=True):
+    """jobs: [(crc, table-as-lists)], one TocCache object and one thread per job, all on ONE rw directory;
+    sched: list of writer indexes, each entry = one file-system call of that writer's insert.
+    Returns (created file names in creation order, {name: bytes}, first property failure or None)."""
+    import builtins
+    import cflib.crazyflie.toccache as tc
+    root = mkdtemp()
+    gate = _Gate()
+    created = []
+
+    def gated_open(path, mode='r', *a, **k):
+        wid = getattr(_tl, 'wid', None)
+        if wid is None or 'w' not in mode:
+            return builtins.open(path, mode, *a, **k)
+        gate.point(wid)
+        if not os.path.exists(path):
+            created.append(os.path.basename(path))
+        return _GFile(builtins.open(path, mode, *a, **k), wid, gate)
+    stored = {}
+    for c, t in jobs:
+        stored.setdefault(c, []).append([1] + c03.enc_toc(c03.mk_toc_obj(reload_lists(t))) if t else [1, 0])
+    fail = [None]
+
+    def check(where):
+        if fail[0] is not None:
+            return
+        for c in stored:
+            got = enc_fetch(tc.TocCache(rw_cache=root).fetch(c))
+            if got != [0] and got not in stored[c]:
+                fail[0] = 'fetch(0x%08X) %s returns a table that was not stored under that checksum' % (c, where)
+                return
+    tc.open = gated_open
+    tc.os = _OsProxy(gate)
+    threads = []
+    try:
+        caches = [tc.TocCache(rw_cache=root) for _ in jobs]
+
+        def work(wid):
+            _tl.wid = wid
+            try:
+                caches[wid].insert(jobs[wid][0], c03.mk_toc_obj(jobs[wid][1]))
+            finally:
+                _tl.wid = None
+                gate.done(wid)
+        for wid in range(len(jobs)):
+            th = threading.Thread(target=work, args=(wid,), daemon=True)
+            threads.append(th)
+            th.start()
+        for k, wid in enumerate(list(sched) + [w for w in range(len(jobs)) for _ in range(6)]):
+            if gate.step(wid) and check_each_step and k < len(sched):
+                check('after step %d (writer %d)' % (k, wid))
+        for th in threads:
+            th.join(20)
+        check('after all inserts completed')
+        files = {}
+        for fn in sorted(os.listdir(root)):
+            with builtins.open(os.path.join(root, fn), 'rb') as f:
+                files[fn] = f.read()
+        return created, files, fail[0]
+    finally:
+        try:
+            del tc.open
+        except AttributeError:
+            pass
+        tc.os = os
+        shutil.rmtree(root, ignore_errors=True)
+
+
+def gen_concurrent(rng):
+    nw = rng.choice([2, 2, 3, 4])
+    crcs = [rng.getrandbits(32) for _ in range(nw)]
+    jobs = []
+    shared = gen_table(rng, n=rng.choice([1, 2, 3]), cls='log')
+    for w in range(nw):
+        r = rng.random()
+        if w and r < 0.15:
+            jobs.append((jobs[0][0], jobs[0][1]))                 # same checksum, same table (two drones, same firmware)
+        elif w and r < 0.25:
+            jobs.append((jobs[0][0], gen_table(rng, n=rng.choice([1, 2, 4]), cls=rng.choice(['log', 'param']))))
+        else:
+            jobs.append((crcs[w], gen_table(rng, n=rng.choice([1, 2, 3, 5]), cls=rng.choice(['log', 'log', 'param']))
+                         if rng.random() < 0.8 else shared))
+    kind = rng.choice(['random', 'random', 'nested', 'nested', 'roundrobin'])
+    if kind == 'random':
+        sched = [w for w in range(nw) for _ in range(4)]
+        rng.shuffle(sched)
+    elif kind == 'roundrobin':
+        sched = [w for _ in range(4) for w in range(nw)]
+    else:
+        # one writer has opened its file, the others run to completion, then it continues
+        first = rng.randrange(nw)
+        others = [w for w in range(nw) if w != first]
+        rng.shuffle(others)
+        sched = [first] * rng.choice([1, 1, 2]) + [w for w in others for _ in range(4)] + [first] * 4
+    return jobs, sched
+
+
+def concurrent_case(case):
+    jobs = [(c, tunjson(t)) for c, t in case['jobs']]
+    created, files, bad = run_concurrent(jobs, case['sched'])
+    if bad:
+        return {'class': 'concurrent_inserts_put_a_table_under_another_crc', 'case': case, 'observed': bad, 'detail': bad,
+                'expected': 'every fetch is a miss or a table stored under that checksum'}
+    return None
+
+
+HEADER_C = HEADER.replace('C11.Model.', 'C11.Model C11.Conc.')
+
+
+def tie_concurrent(ctx, dist, dis):
+    rng = ctx.rng
+    terms, exp, cs = [], [], []
+    for _ in range(ctx.scale(24, 200)):
+        jobs, sched = gen_concurrent(rng)
+        created, files, bad = run_concurrent(jobs, sched, check_each_step=False)
+        texts = [full_text(t, c) for c, t in jobs]
+        obs = []
+        for nm in created:
+            obs += c03.lenc(c03.codes(nm)) + (c03.lenc(list(files[nm])) if nm in files else [-1])
+        if set(created) != set(files):
+            dis.append({'what': 'concurrent inserts: directory holds %r, files created through open(): %r' % (sorted(files), created),
+                        'sched': sched})
+        terms.append('enc_cfs (snd (wrun [%s] [%s]))' % ('; '.join('mkW %d %s' % (c, coqrun.zlist(list(tx))) for (c, _), tx in zip(jobs, texts)),
+                                                         '; '.join('%d%%nat' % w for w in sched + [w for w in range(len(jobs)) for _ in range(6)])))
+        exp.append(obs)
+        cs.append((jobs, sched))
+        dist['concurrent_histories'] = dist.get('concurrent_histories', 0) + 1
+    for bi, mv in c03.compare_blocks(HEADER_C, terms, exp, tag='c11c', shard=max(2, len(terms) // 12 + 1)):
+        dis.append({'what': 'concurrent inserts: files after the interleaving differ between model and implementation',
+                    'crcs': ['%08X' % c for c, _ in cs[bi][0]], 'sched': cs[bi][1],
+                    'model_len': None if mv is None else len(mv), 'impl_len': len(exp[bi])})
+        if len(dis) > 6:
+            break
+    return len(terms)
+
+
+def json_extra_sweep(rng, fails, pairs):
+    """hypotheses of C11_concurrent_writers_isolated on this CPython: a complete text followed by the tail of
+    another text is not a loadable file; texts end with the closing brace"""
+    from cflib.crazyflie.toccache import TocCache
+    n = 0
+    d = mkdtemp()
+    try:
+        for _ in range(pairs):
+            crc = rng.getrandbits(32)
+            t1, t2 = gen_table(rng, n=rng.choice([0, 1, 2])), gen_table(rng, n=rng.choice([1, 2, 3]))
+            x1, x2 = full_text(t1, crc), full_text(t2, crc)
+            if not (x1.endswith(b'}') and x2.endswith(b'}')):
+                fails.append({'class': 'json_text_does_not_end_with_brace', 'case': {'kind': 'roundtrip', 'table': tjson(t1), 'crc': crc}})
+            p = os.path.join(d, '%08X.json' % crc)
+            cache = None
+            for k in sorted(set([0, 1, len(x2) - 1, len(x2) - 2] + [rng.randrange(len(x2)) for _ in range(25)])):
+                with open(p, 'wb') as f:
+                    f.write(x1 + x2[k:])
+                cache = cache or TocCache(rw_cache=d)
+                n += 1
+                if cache.fetch(crc) is not None:
+                    fails.append({'class': 'text_with_trailing_data_is_loaded', 'case': {'kind': 'extra', 'k': k, 'crc': crc,
+                                                                                        'table': tjson(t1), 'table2': tjson(t2)}})
+                    break
+            os.remove(p)
+    finally:
+        shutil.rmtree(d, ignore_errors=True)
+    return n
 
 
 # ------------------------------------------------------------------ oracle
@@ -573,6 +834,9 @@ def _run_case(case, rng):
     if case.get('kind') == 'collision':
         f = oracle_collision(case)
         return [f] if f else []
+    if case.get('kind') == 'concurrent':
+        f = concurrent_case(case)
+        return [f] if f else []
     if case.get('kind') == 'crc_suffix':
         f = crc_suffix_case(case)
         return [f] if f else []
@@ -655,6 +919,14 @@ def oracle(ctx, deep=False):
         finally:
             shutil.rmtree(root, ignore_errors=True)
     n += oracle_crc_suffix(rng, fails, ctx.scale(12, 120))
+    # several TocCache objects storing into one rw directory from parallel threads, scripted interleavings
+    for _ in range(ctx.scale(30, 300) * (2 if deep else 1)):
+        jobs, sched = gen_concurrent(rng)
+        case = {'kind': 'concurrent', 'jobs': [[c, tjson(t)] for c, t in jobs], 'sched': sched}
+        n += 1
+        f = concurrent_case(case)
+        if f:
+            fails.append(f)
     best = {}
     for f in fails:
         k = f['class']
